@@ -24,6 +24,7 @@
 #include <functional>
 #include <chrono>
 #include <memory>
+#include <vector>
 
 #include <tbox/base/defines.h>
 #include <tbox/base/json_fwd.h>
@@ -169,7 +170,7 @@ class Action {
 
     //! runNext()的任务号，用于撤消
     event::Loop::RunId finish_cb_run_id_ = 0;
-    event::Loop::RunId block_cb_run_id_ = 0;
+    std::vector<event::Loop::RunId> block_cb_run_ids_;  //!< 可能同时有多个阻塞通知在途
 
     bool is_base_func_invoked_ = false; //! 是否已调用基类函数
     //! 检查使用者在重写的 onStart(),onPause(),onResume(),onStop(),onFinished() 中是否调用了基类的函数
